@@ -3,7 +3,8 @@ import St4sd.Lemmas.C04Tree
 # C04 — Resolved component configuration follows the documented layering order
 
 Model: `Model/Tree.lean` (`override`), `Model/Interp.lean` (`interp`, `fillIn`), `Model/Convert.lean`
-(`convert`), `Model/Resolve.lean` (`varsOf`, `layers`, `resolve`, `patchUser`).
+(`convert`), `Model/Resolve.lean` (`varsOf`, `layers`, `resolve`, `patchUser`; `Flags`, `varsOfF`, `layersF`,
+`resolveF` for every combination of the keyword arguments of `get_component_configuration`).
 -/
 namespace St4sd.C04
 open St4sd.Str St4sd.Tree
@@ -514,6 +515,14 @@ example : (∀ l ∈ layers d0 ['p'] c0, leafAt ["command".toList, "arguments".t
     (∃ v, layerAll (.dict []) (layers d0 ['p'] c0) = .ok v ∧
       lookupPath ["command".toList, "arguments".toList] v = some (.str ['P'])) := by
   refine ⟨by decide, _, rfl, by rfl⟩
+
+/-- hypotheses of `resolveF_eq_spec` are satisfiable without the built-in defaults (the variant `instance()`
+asks when an instance description is written), and the platform layer still wins over the default one -/
+example : (∀ l ∈ layersF d0 ['p'] c0 false, leafAt ["command".toList, "arguments".toList] l = true) ∧
+    (∃ v, layerAll (.dict []) (layersF d0 ['p'] c0 false) = .ok v ∧
+      lookupPath ["command".toList, "arguments".toList] v = some (.str ['P']) ∧
+      lookupPath ["command".toList, "interpreter".toList] v = none) := by
+  refine ⟨by decide, _, rfl, by rfl, by rfl⟩
 
 /-- a chain of depth 6 resolves with little fuel -/
 example : interp 40
